@@ -22,4 +22,4 @@ package simhook
 func Yield(point string, key ...string) {}
 
 // SpinWait reports whether a polling wait should retry at once instead of sleeping. Always false in normal builds.
-func SpinWait() bool { return false }
+func SpinWait(attempt int) bool { return false }
